@@ -28,39 +28,78 @@ tokio::task_local! {
 
 pub struct Ctl {
     sems: Vec<Semaphore>,
-    waiting: Vec<AtomicBool>,
+    waiting: Vec<AtomicUsize>,
     free_run: AtomicBool,
     pub ops: AtomicUsize,
     /// also park AFTER every operation (needed to expose the read-fill / write-through race)
     post_gate: AtomicBool,
+    /// the slot that storage operations of tasks without an identity (tasks the library spawns itself) are charged to;
+    /// usize::MAX = such operations are not gated
+    bg: AtomicUsize,
+    /// parked operations of such tasks, oldest first; released newest first so that an operation nobody waits for stays parked
+    bgq: std::sync::Mutex<Vec<Arc<Semaphore>>>,
 }
 impl Ctl {
     pub fn new(ntasks: usize) -> Arc<Ctl> {
         Arc::new(Ctl {
             sems: (0..ntasks).map(|_| Semaphore::new(0)).collect(),
-            waiting: (0..ntasks).map(|_| AtomicBool::new(false)).collect(),
+            waiting: (0..ntasks).map(|_| AtomicUsize::new(0)).collect(),
             free_run: AtomicBool::new(true),
             ops: AtomicUsize::new(0),
             post_gate: AtomicBool::new(false),
+            bg: AtomicUsize::new(usize::MAX),
+            bgq: std::sync::Mutex::new(vec![]),
         })
     }
     async fn gate(&self) {
+        self.gate2(false).await
+    }
+    async fn gate2(&self, post: bool) {
         if self.free_run.load(Ordering::SeqCst) {
             return;
         }
-        let id = TASK.try_with(|t| *t).unwrap_or(usize::MAX);
+        let id = TASK.try_with(|t| *t).unwrap_or(self.bg.load(Ordering::SeqCst));
         if id >= self.sems.len() {
             return;
         }
-        self.waiting[id].store(true, Ordering::SeqCst);
+        if id == self.bg.load(Ordering::SeqCst) {
+            // library-spawned tasks are only held back between the database's answer and its use
+            if !post {
+                return;
+            }
+            let sem = Arc::new(Semaphore::new(0));
+            self.bgq.lock().unwrap().push(sem.clone());
+            self.waiting[id].fetch_add(1, Ordering::SeqCst);
+            let p = sem.acquire().await.unwrap();
+            p.forget();
+            self.waiting[id].fetch_sub(1, Ordering::SeqCst);
+            self.ops.fetch_add(1, Ordering::SeqCst);
+            return;
+        }
+        self.waiting[id].fetch_add(1, Ordering::SeqCst);
         let p = self.sems[id].acquire().await.unwrap();
         p.forget();
-        self.waiting[id].store(false, Ordering::SeqCst);
+        self.waiting[id].fetch_sub(1, Ordering::SeqCst);
         self.ops.fetch_add(1, Ordering::SeqCst);
+    }
+    /// lets the most recently parked operation of a library-spawned task through
+    fn release_bg_newest(&self) -> bool {
+        match self.bgq.lock().unwrap().pop() {
+            Some(s) => {
+                s.add_permits(1);
+                true
+            }
+            None => false,
+        }
+    }
+    fn release_bg_all(&self) {
+        for s in self.bgq.lock().unwrap().drain(..) {
+            s.add_permits(1);
+        }
     }
     async fn after(&self) {
         if self.post_gate.load(Ordering::SeqCst) {
-            self.gate().await;
+            self.gate2(true).await;
         }
     }
 }
@@ -130,7 +169,7 @@ async fn drive<T: Send + 'static>(ctl: &Arc<Ctl>, handles: &mut Vec<tokio::task:
     // let every task reach its first gate (or finish / block)
     spin(20 * handles.len()).await;
     for &t in schedule {
-        if t >= handles.len() || handles[t].is_finished() || !ctl.waiting[t].load(Ordering::SeqCst) {
+        if t >= handles.len() || handles[t].is_finished() || !(ctl.waiting[t].load(Ordering::SeqCst) > 0) {
             continue;
         }
         ctl.sems[t].add_permits(1);
@@ -139,7 +178,7 @@ async fn drive<T: Send + 'static>(ctl: &Arc<Ctl>, handles: &mut Vec<tokio::task:
         loop {
             tokio::task::yield_now().await;
             k += 1;
-            if handles[t].is_finished() || (ctl.waiting[t].load(Ordering::SeqCst) && ctl.sems[t].available_permits() == 0) || k > 300 {
+            if handles[t].is_finished() || ((ctl.waiting[t].load(Ordering::SeqCst) > 0) && ctl.sems[t].available_permits() == 0) || k > 300 {
                 break;
             }
         }
@@ -296,6 +335,95 @@ async fn c12_case<TC: Configuration>(cx: &mut Cx, cached: bool, batches: &[Vec<(
             }
             Err(e) => cx.fail(format!("C12 {}: audit failed after the publishes: {:?}", what, e)),
         }
+    }
+}
+
+/// C12 with tasks the library detaches: publish A runs with parallel preloading over a cold cache while the storage
+/// operations of the tasks it spawns are held back as long as A itself can make progress (they are parked after the
+/// database has answered, before the manager sees the answer); then publish B runs.  If A does not wait for what it
+/// spawned, an answer read before A's commit reaches the cache after it, and B builds on stale records.
+async fn c12_detached<TC: Configuration>(cx: &mut Cx, batch_a: &[(Vec<u8>, Vec<u8>)], batch_b: &[(Vec<u8>, Vec<u8>)]) {
+    let cfg = cfg_name::<TC>();
+    let (base, _labels) = base_history();
+    let ctl = Ctl::new(3);
+    let db = GateDb { inner: AsyncInMemoryDatabase::new(), ctl: ctl.clone() };
+    {
+        let d0 = gdir::<TC>(&db, false).await;
+        for b in &base {
+            d0.publish(upd(b)).await.unwrap();
+        }
+    }
+    // a fresh manager: cold cache, parallel preloading and insertion
+    let st = StorageManager::new(db.clone(), Some(Duration::from_secs(3600)), None, Some(Duration::from_secs(3600)));
+    let dir = Directory::<TC, _, _>::new(st, HardCodedAkdVRF {}, AzksParallelismConfig::default()).await.unwrap();
+    let what = format!("[cfg {} detached-task schedule, cold cache, parallel preload]", cfg);
+    ctl.bg.store(2, Ordering::SeqCst);
+    ctl.post_gate.store(true, Ordering::SeqCst);
+    ctl.free_run.store(false, Ordering::SeqCst);
+    let da = dir.clone();
+    let ba = batch_a.to_vec();
+    let ha = tokio::spawn(TASK.scope(0, async move { da.publish(upd(&ba)).await.map_err(|e| format!("{:?}", e)) }));
+    let mut idle = 0usize;
+    let mut steps = 0usize;
+    while !ha.is_finished() && steps < 200_000 {
+        steps += 1;
+        tokio::task::yield_now().await;
+        if (ctl.waiting[0].load(Ordering::SeqCst) > 0) && ctl.sems[0].available_permits() == 0 {
+            ctl.sems[0].add_permits(1);
+            idle = 0;
+        } else {
+            idle += 1;
+            // A cannot move by itself: let one held-back operation of a spawned task through
+            if idle > 50 && ctl.release_bg_newest() {
+                if std::env::var("VERIF_DEBUG").is_ok() { eprintln!("c12_detached: grant bg at step {}", steps); }
+                idle = 0;
+            }
+        }
+    }
+    if std::env::var("VERIF_DEBUG").is_ok() { eprintln!("c12_detached: steps {} A finished {} bg waiting {} ops {}", steps, ha.is_finished(), (ctl.waiting[2].load(Ordering::SeqCst) > 0), ctl.ops.load(Ordering::SeqCst)); }
+    if ctl.waiting[2].load(Ordering::SeqCst) > 0 {
+        cx.stat("c12_detached_ops_outliving_publish");
+    }
+    ctl.free_run.store(true, Ordering::SeqCst);
+    ctl.release_bg_all();
+    for s in &ctl.sems {
+        s.add_permits(1_000_000);
+    }
+    let ra = match tokio::time::timeout(Duration::from_secs(20), ha).await {
+        Ok(Ok(r)) => r,
+        _ => {
+            cx.fail(format!("C12 {}: publish A did not finish", what));
+            return;
+        }
+    };
+    for _ in 0..200 {
+        tokio::task::yield_now().await;
+    }
+    let rb = dir.publish(upd(batch_b)).await.map_err(|e| format!("{:?}", e));
+    cx.stat("c12_detached");
+    // serial reference
+    let sdb = AsyncInMemoryDatabase::new();
+    let sdir = Directory::<TC, _, _>::new(StorageManager::new_no_cache(sdb.clone()), HardCodedAkdVRF {}, AzksParallelismConfig::disabled()).await.unwrap();
+    let mut serial = vec![sdir.get_epoch_hash().await.unwrap().1];
+    for b in &base {
+        serial.push(sdir.publish(upd(b)).await.unwrap().1);
+    }
+    let sa = sdir.publish(upd(batch_a)).await.unwrap();
+    let sb = sdir.publish(upd(batch_b)).await.unwrap();
+    match (&ra, &rb) {
+        (Ok(a), Ok(b)) => {
+            if (a.0, a.1) != (sa.0, sa.1) || (b.0, b.1) != (sb.0, sb.1) {
+                cx.fail(format!("C12 {}: the publishes returned ({}, {}) and ({}, {}) but applying them one after another gives ({}, {}) and ({}, {})", what, a.0, hx(&a.1), b.0, hx(&b.1), sa.0, hx(&sa.1), sb.0, hx(&sb.1)));
+                return;
+            }
+        }
+        _ => {
+            cx.fail(format!("C12 {}: a publish failed: {:?} {:?}", what, ra.as_ref().map(|e| e.0), rb.as_ref().map(|e| e.0)));
+            return;
+        }
+    }
+    if canon_dump(db.inner.batch_get_all_direct().await.unwrap()) != canon_dump(sdb.batch_get_all_direct().await.unwrap()) {
+        cx.fail(format!("C12 {}: the final database differs from applying the batches one after another", what));
     }
 }
 
@@ -491,7 +619,7 @@ async fn c13_poll_race<TC: Configuration>(cx: &mut Cx, k: usize) {
     for _ in 0..k {
         for _ in 0..200 {
             tokio::task::yield_now().await;
-            if ctl.waiting[0].load(Ordering::SeqCst) || h.is_finished() {
+            if (ctl.waiting[0].load(Ordering::SeqCst) > 0) || h.is_finished() {
                 break;
             }
         }
@@ -567,6 +695,11 @@ pub fn run(seed: u64, tier: u32, which: &str) -> Cx {
                 let cached = i % 2 == 0;
                 if i % 3 == 0 { c12_case::<E>(&mut cx, cached, &[b1.clone(), b2.clone()], s).await } else { c12_case::<W>(&mut cx, cached, &[b1.clone(), b2.clone()], s).await }
             }
+            // tasks detached by the library (parallel preloading over a cold cache)
+            let ba: Vec<(Vec<u8>, Vec<u8>)> = (0..8u8).map(|i| (vec![b'd', i], vec![6, i])).collect();
+            let bb: Vec<(Vec<u8>, Vec<u8>)> = vec![(vec![b'd', 100], vec![7, 0])];
+            c12_detached::<W>(&mut cx, &ba, &bb).await;
+            c12_detached::<E>(&mut cx, &ba[..3].to_vec(), &vec![(vec![b'd', 101], vec![7, 1]), (labels[5].clone(), vec![7, 2])]).await;
             let n3 = if tier == 0 { 25 } else { 600 };
             for (i, s) in preempt_schedules(&mut r, 3, 24, n3, false).iter().enumerate() {
                 c12_case::<W>(&mut cx, i % 2 == 0, &[b1.clone(), b2.clone(), b3.clone()], s).await;
